@@ -9,7 +9,8 @@ C01  encode -> decode -> encode: every statement of corpus/statements (all CPUs)
      literals is assembled (real two-pass assembly), the emitted bytes are walked with the CPU's single-instruction
      disassembler (must consume exactly the bytes), every printed text is assembled again at its address: rejected
      or the same bytes.
-C06  a numeric literal N and N + 2^k are never accepted with the same encoding.
+C06  a numeric literal N and N + 2^k are never accepted with the same encoding; an accepted boundary value is the
+     value the listing shows; the powers of two +-2^k (k = 0..31) a literal position accepts form an interval in k.
 C07  decode -> encode -> decode: byte strings (corpus encodings, single-bit flips of them) are disassembled,
      the text is assembled at the same address; if accepted, the new bytes must disassemble to the same text
      (after numeric normalisation).
@@ -23,6 +24,7 @@ import nvlib, gen_src as S
 
 NUM = re.compile(r"(?<![A-Za-z0-9_$.'])(0x[0-9a-fA-F]+|\d+)(?![A-Za-z0-9_.'])")
 KS = [3, 4, 5, 6, 7, 8, 10, 12, 13, 16, 20, 24, 32]
+NEG_KS = [3, 4, 5, 6, 7, 8, 9, 10, 11, 12, 13, 16]
 C01_THEOREMS = []
 C06_THEOREMS = []
 C07_THEOREMS = []
@@ -337,6 +339,17 @@ def c06_lines():
                     st2 = st[:m.start(1)] + ("0x%x" % (v + (1 << k))) + st[m.end(1):]
                     lines.append("asmq %s %s" % (cpu, nvlib.hexs(st2)))
                     meta.append((cpu, st, m.start(1), k, v + (1 << k)))
+                # N and N - 2^k with N < 2^(k-1): if both are accepted with the same bytes the field is at most k bits
+                # wide (the values agree modulo its width), but then N - 2^k < -2^(k-1) is below the smallest value
+                # such a field holds: not the signed spelling of N's field value.  (N >= 2^(k-1) is left out: 200 and
+                # -56 ARE the two spellings of one 8 bit value.)
+                if m.start(1) > 0 and st[m.start(1) - 1] in "-+":
+                    continue
+                for k in NEG_KS:
+                    if v < (1 << (k - 1)):
+                        st2 = st[:m.start(1)] + ("-%d" % ((1 << k) - v)) + st[m.end(1):]
+                        lines.append("asmq %s %s" % (cpu, nvlib.hexs(st2)))
+                        meta.append((cpu, st, m.start(1), -k, v - (1 << k)))
     return lines, meta
 
 
@@ -385,6 +398,99 @@ def same_value(p, w):
     return False
 
 
+# (3) monotone acceptance.  Model-free and sound for every encoder whose operand check has the form
+# "fits iff lo <= v <= hi (and v is a multiple of the alignment)" - a field of any width, signed, unsigned or both
+# spellings, an absolute address window, a PC-relative reach around the load address: the powers of two 2^k that such
+# a check accepts are the ones between the alignment and the upper bound, an INTERVAL in k (and the same for -2^k and
+# the lower bound).  So once a power of two has been rejected after an accepted one, no larger one may be accepted:
+# a value far outside the field that is accepted again was wrapped or masked into it (or slipped through a check that
+# negates / shifts before it compares).  k runs over 0..31: 2^31 = 0x80000000 and -2^31 are the ends of the 32-bit
+# operand domain the property quantifies over (2^32 is outside it; `trunc` above looks at N + 2^32).
+POW_K = list(range(0, 32))
+# Operands that are no field value but part of the mnemonic (an enumerated selector): the F8 shifts exist as
+# SR 1 / SR 4 / SL 1 / SL 4 (opcodes 0x12 0x14 0x13 0x15); "1" and "4" select the opcode, {1, 4} is the instruction set's
+# own operand set and both members get different encodings, which is all the property asks of accepted values.
+ENUMERATED = {("f8", "sr"), ("f8", "sl")}
+
+
+POW_QUICK_DIVISOR = 1
+
+
+def pow_selected(cpu, st, thorough):
+    """the statements whose literals are probed (nothing depends on the seed).  All of them in both tiers: the
+    223,000 probes of the whole corpus take 7 s; POW_QUICK_DIVISOR = 4 would restrict the quick tier to a quarter
+    chosen by a hash of the text"""
+    return thorough or zlib.crc32((cpu + "/" + st).encode("latin-1")) % POW_QUICK_DIVISOR == 0
+
+
+def literal_spans(st):
+    """[(start, end)] of the numeric literals of a statement; a unary minus in front of a literal belongs to it"""
+    out = []
+    for m in NUM.finditer(st):
+        a = m.start(1)
+        if a > 0 and st[a - 1] == "-" and (a == 1 or st[a - 2] in " \t,#([{=:+*/<>&|^~"):
+            a -= 1
+        out.append((a, m.end(1), m.start(1)))
+    return out
+
+
+def c06_pow_lines(thorough):
+    lines, meta, seen = [], [], set()
+    for cpu in corpus_cpus():
+        for st in statements(cpu):
+            if not pow_selected(cpu, st, thorough) or (cpu, st) in seen or (cpu, st.split()[0].lower()) in ENUMERATED:
+                continue
+            seen.add((cpu, st))
+            for (a, e, pos) in literal_spans(st):
+                for sign in (1, -1):
+                    for k in POW_K:
+                        w = sign << k
+                        txt = st[:a] + ("-0x%x" % -w if w < 0 else "0x%x" % w) + st[e:]
+                        lines.append("asmq %s %s" % (cpu, nvlib.hexs(txt)))
+                        meta.append((cpu, st, pos, sign, k, txt))
+    return lines, meta
+
+
+def c06_monotone(ctx, orc):
+    lines, meta = c06_pow_lines(not ctx.quick())
+    ans = ctx.impl(lines)
+    rows = collections.OrderedDict()
+    for (cpu, st, pos, sign, k, txt), a in zip(meta, ans):
+        orc["cases"] += 1
+        rows.setdefault((cpu, st, pos, sign), []).append((k, txt, a))
+    bad = collections.OrderedDict()
+    nacc = nrows = 0
+    for (cpu, st, pos, sign), row in rows.items():
+        if any(a.startswith("DIED") for _, _, a in row):
+            continue            # reported by the crash signature of (1) / C16
+        acc = [a.startswith("ok") for _, _, a in row]
+        nrows += 1
+        nacc += sum(acc)
+        if True not in acc:
+            continue
+        first = acc.index(True)
+        if False not in acc[first:]:
+            continue
+        rej = first + acc[first:].index(False)
+        again = [row[i] for i in range(rej, len(row)) if acc[i]]
+        if not again:
+            continue
+        key = (cpu, st, pos)
+        if key in bad:
+            continue
+        k2, txt2, a2 = again[0]
+        s = "-" if sign < 0 else ""
+        bad[key] = {"sig": "C06:sweep:%s:accept-after-reject:%s@%d" % key, "input": ".%s / %s" % (cpu, txt2),
+                    "expected": "a value beyond a rejected power of two is rejected as well (fits iff lo <= v <= hi)",
+                    "observed": "%s2^k accepted for k = %s, rejected for k = %s, but %s2^%d accepted again: %s" % (
+                        s, [k for (k, _, _), x in zip(row, acc) if x and k < row[rej][0]], [k for (k, _, _), x in zip(row, acc) if not x and k >= row[rej][0]],
+                        s, k2, a2[:60]),
+                    "what": "operand far outside the field accepted (non-monotone range check)",
+                    "replay_line": "asmq %s %s" % (cpu, nvlib.hexs(txt2))}
+    orc["failures"].extend(bad.values())
+    orc["stats"]["sweep_c06_monotone"] = {"literal_rows": nrows, "probes": len(lines), "accepted": nacc, "non_monotone": len(bad)}
+
+
 def c06_oracle(ctx, orc):
     _start = len(orc["failures"])
     _c06_oracle(ctx, orc)
@@ -396,6 +502,7 @@ def _c06_oracle(ctx, orc):
     lines, meta = c06_lines()
     ans = ctx.impl(lines)
     hits = collections.OrderedDict()
+    neg_hits = collections.OrderedDict()
     base = None
     accepted = 0
     for (cpu, st, pos, k, v), a in zip(meta, ans):
@@ -410,12 +517,20 @@ def _c06_oracle(ctx, orc):
         if a.startswith("ok"):
             accepted += 1
             if a == base:
-                hits.setdefault((cpu, st, pos), []).append(k)
+                (hits if k > 0 else neg_hits).setdefault((cpu, st, pos), []).append(abs(k))
     for (cpu, st, pos), ks in hits.items():
         orc["failures"].append({"sig": "C06:trunc:%s:%s@%d" % (cpu, st, pos), "input": ".%s / %s" % (cpu, st),
                                 "expected": "different bytes or an error",
                                 "observed": "same bytes as the original for the literal + 2^k, k in %s" % ks,
                                 "what": "operand silently truncated", "replay_line": "asmq %s %s" % (cpu, nvlib.hexs(st))})
+    for (cpu, st, pos), ks in neg_hits.items():
+        if (cpu, st, pos) in hits:
+            continue
+        orc["failures"].append({"sig": "C06:trunc-neg:%s:%s@%d" % (cpu, st, pos), "input": ".%s / %s" % (cpu, st),
+                                "expected": "different bytes or an error",
+                                "observed": "same bytes as the original for the literal - 2^k (below -2^(k-1)), k in %s" % ks,
+                                "what": "two operand values that are not spellings of one field value share an encoding",
+                                "replay_line": "asmq %s %s" % (cpu, nvlib.hexs(st))})
     # (2) an accepted boundary value is the value that was encoded.  For a literal that the listing TRACKS (the
     # listing of the original statement and of its accepted neighbours v+1, v^2 shows their values) the listing of an
     # accepted boundary value w (w not 0 or 1: listings leave those out) must show w or its signed/unsigned alias.
@@ -481,6 +596,7 @@ def _c06_oracle(ctx, orc):
                                  "boundary_values_not_shown": checked,
                                  "altered": len(altered)}
     orc["distinct_nontrivial"] = orc.get("distinct_nontrivial", 0) + accepted
+    c06_monotone(ctx, orc)
 
 
 # ---------------------------------------------------------------------------------------------
